@@ -11,6 +11,7 @@ Oracle: the property stated directly on the captured command strings / return va
 memory, numpy reference for SYNC) — it never looks at the Lean model.
 """
 import contextlib
+import os
 import hashlib
 import io
 import json
@@ -71,7 +72,9 @@ PARTIAL = [
     "fftconvolve is modelled as the exact correlation sum (floating-point FFT error is far below the integer gap 1)",
     "aperiodicity of np.kron(PRBS, ones(sps)) is a hypothesis of sync_argmax, evaluated numerically on every generated pattern",
     "scalar getters: the model only emits the queries; the returned values are checked by the oracle against its own reference state",
-    "NaN requests, non-numeric/bool arguments, ints beyond 2^62, 2-D value arrays, float channel numbers: outside the generated domain",
+    "NaN requests are generated only with VERIF_SUSPECT=1 (the unchanged code sends them raw, e.g. set_freq(nan) -> ':FREQ nan'; the "
+    "oracle judges any command carrying nan as a violation, sig C20:nan-sent:<op>); +-inf requests ARE generated (clamped correctly)",
+    "non-numeric/bool arguments, ints beyond 2^62, 2-D value arrays, float channel numbers: outside the generated domain",
     "set_data start addresses outside 1..2^21 are run in dry-run mode only and only the channel/block/header clauses are demanded for "
     "them (2-D data next to the end of the memory ARE generated since fix e1248f9; failures there carry the sig C20:setdata-2d-memory-end)",
 ]
@@ -503,7 +506,7 @@ def run_sync(case):
             slack = (cc[dd] - cc) - (ce - ce[dd])
             slack[dd] = np.inf
             tol = 1e-9 * (abs(cc[dd]) + 1.0)
-            res["margin"] = bool(np.all(slack > tol))
+            res["margin"] = bool(np.all(np.isfinite(cc)) and np.all(np.isfinite(ce)) and not np.any(~(slack > tol)))
             res["min_slack"] = float(np.min(slack))
             res["gap"] = float(np.min(np.delete(cc[dd] - cc, dd))) if len(cc) > 1 else None
             tot = np.sort(cc + ce)
@@ -734,7 +737,7 @@ def compare_sync(case, res, rep):
         if res["status"] != "ok":
             return [f"rational model returns index {t[1]}, implementation raises {res.get('err')} ({res.get('detail')})"]
         out = []
-        if res["index"] != int(t[1]) and res.get("top_sep", 1.0) > 1e-6:      # not a floating-point near-tie of the two best lags
+        if res["index"] != int(t[1]) and not (res.get("top_sep", 1.0) <= 1e-6):   # unless a floating-point near-tie of the two best lags
             out.append(f"rational model argmax {t[1]}, implementation {res['index']}")
         if res["outlen"] != int(t[2]):
             out.append(f"rational model signal length {t[2]}, implementation {res['outlen']}")
@@ -762,6 +765,7 @@ def compare_sync(case, res, rep):
 
 
 def _near(a, b):
+    """exact integers from the model (never NaN)"""
     return abs(a - b) <= 1e-9 * max(abs(a), abs(b), 1)
 
 
@@ -812,8 +816,9 @@ def oracle_hist(case, res):
             if ch is not None and not 1 <= ch <= 4:
                 v.append((f"C20:channel-range:{name}", f"{where}: command {raw[:60]!r} addresses channel {ch}"))
             if t in ("S", "F") and (p[3] if t == "S" else p[1]).lower().lstrip("+-") == "nan":
-                # reported separately (NaN requests are outside the generated domain, see PARTIAL)
-                v.append((f"C20:nan-sent:{name}", f"{where}: NaN request sent raw: {raw!r}"))
+                # a NaN is inside no limit: violation of "carries a value inside the documented limits" (own narrow sig;
+                # NaN requests are generated only with VERIF_SUSPECT=1, see PARTIAL)
+                v.append((f"C20:nan-sent:{name}", f"{where}: command {raw!r} carries NaN (request {op.get('v', {}).get('v')!r})"))
                 continue
             if t == "S":
                 kind, tok = p[1], p[3]
@@ -909,7 +914,8 @@ def oracle_hist(case, res):
                     v.append((f"C20:channel-order:{name}", f"{where}: expected a command for channel {ch}, got {raw[:60]!r}"))
                     continue
                 got = _tok_value(p[3])
-                if got is None:
+                if got is None:            # nan / inf / text: already reported by clause 1 (C20:nan-sent / C20:range)
+                    assert any(sg.startswith(("C20:nan-sent", "C20:range")) for sg, _ in v)
                     continue
                 if kind in DOC:
                     lo, hi = DOC[kind]
@@ -918,7 +924,7 @@ def oracle_hist(case, res):
                     else:
                         want = min(max(dec(x), lo), hi)
                     tol = Fraction(1, 20) if kind in ("volt", "offs") else 0
-                    if abs(got - want) > tol:
+                    if not (abs(got - want) <= tol):
                         v.append((f"C20:value:{name}", f"{where}: requested {x!r} for channel {ch}, sent {raw!r}, required {float(want)!r}"))
                     refstate[(kind, ch)] = want
                 elif kind == "prbsOrder":
@@ -946,7 +952,7 @@ def oracle_hist(case, res):
             else:
                 want = (hi if x > 0 else lo) if not finite(x) else min(max(dec(x), lo), hi)
                 got = _tok_value(cmds[0][1])
-                if got is not None and abs(got - want) > want * Fraction(1, 10 ** 5):
+                if got is not None and not (abs(got - want) <= want * Fraction(1, 10 ** 5)):   # got None: reported by clause 1
                     v.append(("C20:value:freq", f"{where}: requested {x!r}, sent {r['cmds'][0]!r}"))
                 if ((not finite(x)) or not lo <= dec(x) <= hi) and not r["warned"]:
                     v.append(("C20:no-warning:freq", f"{where}: out-of-range frequency {x!r} without a warning"))
@@ -969,7 +975,7 @@ def oracle_hist(case, res):
                             want = refstate[(kind, ch)]
                             if kind in ("pattLen", "prbsOrder", "bitsShift"):
                                 want = int(want)   # the instrument answers integers
-                            if float(got) != float(want):
+                            if not (float(got) == float(want)):
                                 v.append((f"C20:get:{kind}", f"{where}: channel {ch} returns {got!r} after setting {float(want)!r}"))
                 if not isinstance(ret, dict) or ret["shape"] != [len(chans)]:
                     v.append((f"C20:get-shape:{kind}", f"{where}: returned {str(ret)[:80]} for channels {chans}"))
@@ -1305,12 +1311,26 @@ def gen_hist_cases(rng, tier):
                 ops.append({"op": "get", "q": {"pattlen": "pattLen", "order": "prbsOrder", "bsh": "bitsShift", "skew": "skew",
                                                "volt": "volt", "offs": "offs"}[name], "chs": rng.choice([None, 1, 2, 3, 4])})
             cases.append({"kind": "hist", "ops": ops, "dry": (j % 7 == 3)})
-    for x in [math.inf, -math.inf]:
+    for x in ["inf", "-inf"]:           # non-finite floats travel as strings (strict JSON); float("inf") is rebuilt by mk_val
         for name in ["freq", "volt", "offs", "skew"]:
             op = {"op": name, "v": {"t": "f", "v": x}}
             if name != "freq":
                 op["chs"] = None
             cases.append({"kind": "hist", "ops": [op]})
+        for name in ["pattlen", "volt", "offs", "skew"]:
+            cases.append({"kind": "hist", "ops": [{"op": name, "v": {"t": "l", "k": "list", "v": [x, 1.0]}, "chs": rng.choice([None, 2])}]})
+    if os.environ.get("VERIF_SUSPECT"):
+        # NaN requests: `nan < MIN` and `nan > MAX` are both False and np.clip(nan) stays nan, so the unchanged code sends the NaN
+        # raw (suspected defect, reported; not in the default run because the statement's quantifier speaks of values
+        # "over several decades around each limit")
+        for name in ["freq", "volt", "offs", "skew"]:
+            op = {"op": name, "v": {"t": "f", "v": "nan"}}
+            if name != "freq":
+                op["chs"] = rng.choice([None, 1])
+            cases.append({"kind": "hist", "ops": [op]})
+        for name in ["pattlen", "volt", "offs", "skew", "order", "bsh"]:
+            cases.append({"kind": "hist", "ops": [{"op": name, "v": {"t": "l", "k": rng.choice(["list", "ndarray"]), "v": ["nan", 1.0]},
+                                                   "chs": rng.choice([None, 2])}]})
     # ill-typed requests (must raise, nothing sent)
     cases.append({"kind": "hist", "ops": [{"op": "mode", "m": "x", "chs": None}, {"op": "mode", "m": "", "chs": 2},
                                           {"op": "freq", "v": {"t": "l", "k": "list", "v": [1e10]}},
